@@ -399,6 +399,12 @@ def run(ctx, report):
     from .c02 import range_rule
     range_rule(ctx, R14)
 
+    # ---------------------------------------------------------------- D15 both renderings determine the immediate (shared with C01.D13 / C03.D12)
+    R15 = report.rule('C09.D15', 'x86_mn.__str__ evaluated as a whole, in Intel and in AT&T syntax, on every decoder form with an immediate: immediates that differ in a low bit, in '
+                      'bits 3-7 or in the top bit give different texts (a rendering that folds the immediate into the mnemonic or masks it cannot yield the original encoding back)', floor=150)
+    from .c01 import render_immediate_rule
+    render_immediate_rule(ctx, R15)
+
     # ---------------------------------------------------------------- D11 both renderings come from one object
     R11 = report.rule('C09.D11', 'rendering does not change the instruction: the Intel and the AT&T rendering of one decoded object describe the same instruction (shared with C12.D11)', floor=4)
     from .c12 import readonly_methods_rule
@@ -575,6 +581,7 @@ def numpy_imm_eval(ctx, args10):
 
 
 MUTANTS = [
+    ('sse-cmp-pseudo-op-revived', 'miasmx/arch/ia32_arch.py', "'cmpsd', 'cmpss'] and len(args)==2 \\\n", "'cmpsd', 'cmpss'] and len(args)==3 \\\n", 'C09.D15'),
     ('unsized-mem-no-default', 'miasmx/arch/ia32_arch.py', "            if len(sizes) == 1 and not None in sizes:", "            if False:", 'C09.D9'),
     ('bound-reversed', 'miasmx/arch/ia32_arch.py', "att_same_order = ['bound', 'enter']", "att_same_order = ['enter']", 'C09.D8'),
     ('att-parse-order', 'miasmx/arch/ia32_arch.py', "    if name in att_same_order and len(args) == 2:\n        args.reverse()\n", "", 'C09.D8'),
